@@ -3,6 +3,8 @@ package c17
 import (
 	"context"
 	"fmt"
+	"os"
+	"path/filepath"
 	"strings"
 
 	"github.com/a-h/templ/cmd/templ/lspcmd/proxy"
@@ -27,13 +29,44 @@ type c17SrvOp struct {
 }
 
 type c17SrvCase struct {
-	Ops []c17SrvOp
+	// URI is the document URI as the editor spells it ("" = c17URIs[0]); with
+	// Preload it is ignored: the document is <workspace>/x.templ.
+	URI string
+	// Preload: the server is created with workspace preloading on, Initialize
+	// and Initialized are sent with a workspace folder that contains x.templ
+	// with the text Disk, and only then the editor opens its own buffer.
+	Preload bool
+	Disk    string
+	Ops     []c17SrvOp
 }
 
-const (
-	c17URI   = "file:///ws/x.templ"
-	c17GoURI = "file:///ws/x_templ.go"
-)
+// URI spellings editors produce: plain, percent-escaped space / non-ASCII /
+// drive-letter colon, characters that need no escaping.
+var c17URIs = []string{
+	"file:///ws/x.templ",
+	"file:///ws/my%20dir/x.templ",
+	"file:///c%3A/ws/x.templ",
+	"file:///ws/caf%C3%A9/x.templ",
+	"file:///ws/a+b/x%2Bx.templ",
+	"file:///C:/Users/me/x.templ",
+}
+
+func c17GoURIOf(u string) string { return strings.TrimSuffix(u, ".templ") + "_templ.go" }
+
+var c17Workspace string
+
+// c17WorkspaceDir returns the scratch workspace of preload sessions.
+func c17WorkspaceDir() string {
+	if c17Workspace == "" {
+		d, err := os.MkdirTemp("", "verif-c17-ws-")
+		if err != nil {
+			core.Infra("C17: cannot create scratch workspace: %v", err)
+		}
+		c17Workspace = d
+		core.AtExit(func() { os.RemoveAll(d) })
+	}
+	return c17Workspace
+}
 
 type c17Gopls struct {
 	lsp.Server
@@ -41,6 +74,12 @@ type c17Gopls struct {
 	opened map[string]int
 	log    []string
 }
+
+func (g *c17Gopls) Initialize(ctx context.Context, p *lsp.InitializeParams) (*lsp.InitializeResult, error) {
+	return &lsp.InitializeResult{ServerInfo: &lsp.ServerInfo{Name: "gopls"}}, nil
+}
+
+func (g *c17Gopls) Initialized(ctx context.Context, p *lsp.InitializedParams) error { return nil }
 
 func (g *c17Gopls) DidOpen(ctx context.Context, p *lsp.DidOpenTextDocumentParams) error {
 	g.text[string(p.TextDocument.URI)] = p.TextDocument.Text
@@ -71,12 +110,12 @@ func (c17Editor) PublishDiagnostics(ctx context.Context, p *lsp.PublishDiagnosti
 }
 
 // c17Generate is the reference pipeline: what the user sees -> Go text.
-func c17Generate(text string) (string, bool) {
+func c17Generate(uri, text string) (string, bool) {
 	tf, err := parser.ParseString(text)
 	if err != nil {
 		return "", false
 	}
-	tf.Filepath = c17URI
+	tf.Filepath = uri
 	if _, err := parser.Diagnose(tf); err != nil {
 		return "", false
 	}
@@ -89,6 +128,8 @@ func c17Generate(text string) (string, bool) {
 
 type c17SrvStats struct {
 	ops, changes, opens, closes, parseOK, parseBad, openBad, ranged int
+	preload, preloadDiffers                                         int
+	uris                                                            map[string]int
 }
 
 func c17RunServer(cs c17SrvCase, st *c17SrvStats) (msg string, failedAt int) {
@@ -98,9 +139,33 @@ func c17RunServer(cs c17SrvCase, st *c17SrvStats) (msg string, failedAt int) {
 		}
 	}()
 	g := &c17Gopls{text: map[string]string{}, opened: map[string]int{}}
-	s := proxy.NewServer(c17Log, g, proxy.NewSourceMapCache(), proxy.NewDiagnosticCache(), true)
+	s := proxy.NewServer(c17Log, g, proxy.NewSourceMapCache(), proxy.NewDiagnosticCache(), !cs.Preload)
 	ctx := lsp.WithClient(context.Background(), c17Editor{})
 	want, open := "", false
+	c17URI := cs.URI
+	if c17URI == "" {
+		c17URI = c17URIs[0]
+	}
+	if cs.Preload {
+		dir := c17WorkspaceDir()
+		if err := os.WriteFile(filepath.Join(dir, "x.templ"), []byte(cs.Disk), 0o644); err != nil {
+			core.Infra("C17: cannot write scratch workspace file: %v", err)
+		}
+		c17URI = "file://" + dir + "/x.templ"
+		if _, err := s.Initialize(ctx, &lsp.InitializeParams{WorkspaceFolders: []lsp.WorkspaceFolder{{URI: "file://" + dir, Name: "ws"}}}); err != nil {
+			return fmt.Sprintf("initialize returned error: %v", err), 0
+		}
+		if err := s.Initialized(ctx, &lsp.InitializedParams{}); err != nil {
+			return fmt.Sprintf("initialized returned error: %v", err), 0
+		}
+		if st != nil {
+			st.preload++
+			if cs.Disk != "" && len(cs.Ops) > 0 && cs.Ops[0].Kind == "open" && cs.Ops[0].Text != cs.Disk {
+				st.preloadDiffers++
+			}
+		}
+	}
+	c17GoURI := c17GoURIOf(c17URI)
 	for i, op := range cs.Ops {
 		failedAt = i
 		switch op.Kind {
@@ -108,7 +173,7 @@ func c17RunServer(cs c17SrvCase, st *c17SrvStats) (msg string, failedAt int) {
 			if open {
 				continue
 			}
-			if err := s.DidOpen(ctx, &lsp.DidOpenTextDocumentParams{TextDocument: lsp.TextDocumentItem{URI: c17URI, LanguageID: "templ", Version: 1, Text: op.Text}}); err != nil {
+			if err := s.DidOpen(ctx, &lsp.DidOpenTextDocumentParams{TextDocument: lsp.TextDocumentItem{URI: lsp.DocumentURI(c17URI), LanguageID: "templ", Version: 1, Text: op.Text}}); err != nil {
 				return fmt.Sprintf("op %d: didOpen returned error: %v", i, err), i
 			}
 			want, open = op.Text, true
@@ -119,7 +184,7 @@ func c17RunServer(cs c17SrvCase, st *c17SrvStats) (msg string, failedAt int) {
 			if !open {
 				continue
 			}
-			if err := s.DidClose(ctx, &lsp.DidCloseTextDocumentParams{TextDocument: lsp.TextDocumentIdentifier{URI: c17URI}}); err != nil {
+			if err := s.DidClose(ctx, &lsp.DidCloseTextDocumentParams{TextDocument: lsp.TextDocumentIdentifier{URI: lsp.DocumentURI(c17URI)}}); err != nil {
 				return fmt.Sprintf("op %d: didClose returned error: %v", i, err), i
 			}
 			open = false
@@ -140,7 +205,7 @@ func c17RunServer(cs c17SrvCase, st *c17SrvStats) (msg string, failedAt int) {
 				}
 			}
 			p := &lsp.DidChangeTextDocumentParams{ContentChanges: evs}
-			p.TextDocument.URI = c17URI
+			p.TextDocument.URI = lsp.DocumentURI(c17URI)
 			p.TextDocument.Version = int32(i + 2)
 			if err := s.DidChange(ctx, p); err != nil {
 				return fmt.Sprintf("op %d: didChange returned error: %v", i, err), i
@@ -159,7 +224,7 @@ func c17RunServer(cs c17SrvCase, st *c17SrvStats) (msg string, failedAt int) {
 		if got := d.String(); got != want {
 			return fmt.Sprintf("op %d (%s): server copy %q, editor has %q", i, op.Kind, got, want), i
 		}
-		if goWant, ok := c17Generate(want); ok {
+		if goWant, ok := c17Generate(c17URI, want); ok {
 			if st != nil {
 				st.parseOK++
 			}
@@ -195,6 +260,11 @@ func firstDiff(a, b string) int {
 func c17SrvKey(cs c17SrvCase) string {
 	var sb strings.Builder
 	sb.WriteString("Server")
+	if cs.Preload {
+		fmt.Fprintf(&sb, " preloaded(%q)", cs.Disk)
+	} else if cs.URI != "" && cs.URI != c17URIs[0] {
+		fmt.Fprintf(&sb, " uri=%s", cs.URI)
+	}
 	for _, op := range cs.Ops {
 		switch op.Kind {
 		case "open":
@@ -227,7 +297,8 @@ func c17SrvReduce(cs c17SrvCase) c17SrvCase {
 		cs.Ops = cs.Ops[:at+1]
 	}
 	for i := len(cs.Ops) - 2; i >= 0 && len(cs.Ops) > 1; i-- {
-		try := c17SrvCase{Ops: append(append([]c17SrvOp{}, cs.Ops[:i]...), cs.Ops[i+1:]...)}
+		try := cs
+		try.Ops = append(append([]c17SrvOp{}, cs.Ops[:i]...), cs.Ops[i+1:]...)
 		if m, _ := c17RunServer(try, nil); m != "" {
 			cs = try
 		}
@@ -275,9 +346,17 @@ func c17SrvRandEdit(rnd interface{ Intn(int) int }, cur string) c17Edit {
 func c17ServerSessions(c *core.Ctx, report func(key, msg string, replay any)) {
 	rnd := c.Rand("server")
 	n := c.Pick(3000, 40000)
-	var st c17SrvStats
+	st := c17SrvStats{uris: map[string]int{}}
 	for i := 0; i < n; i++ {
 		var cs c17SrvCase
+		switch rnd.Intn(5) {
+		case 0:
+			cs.Preload = true
+			cs.Disk = c17SrvDocs[rnd.Intn(len(c17SrvDocs))]
+		case 1, 2:
+			cs.URI = c17URIs[rnd.Intn(len(c17URIs))]
+		}
+		st.uris[cs.URI]++
 		cur, open := "", false
 		nops := 2 + rnd.Intn(25)
 		for k := 0; k < nops; k++ {
@@ -330,6 +409,9 @@ func c17ServerSessions(c *core.Ctx, report func(key, msg string, replay any)) {
 	c.Set("server_didChange", st.changes)
 	c.Set("server_ranged_content_changes", st.ranged)
 	c.Set("server_didClose_then_reopen", st.closes)
+	c.Set("server_sessions_with_workspace_preload", st.preload)
+	c.Set("server_sessions_where_editor_buffer_differs_from_preloaded_disk_text", st.preloadDiffers)
+	c.Set("server_sessions_per_uri_spelling", st.uris)
 	c.Set("server_states_where_buffer_is_valid_template_and_gopls_text_compared", st.parseOK)
 	c.Set("server_states_where_buffer_does_not_parse", st.parseBad)
 	if st.parseOK == 0 || st.parseBad == 0 || st.openBad == 0 || st.ranged == 0 {
